@@ -157,6 +157,8 @@ def handle_analyze(text):
         raise RuntimeError("SystemExit") from e
     teal = tealer.contracts["c"]
     res = teal_fields(teal)
+    _t2, _o2, err2 = quiet(parse_teal, text)
+    res.update(teal_extra(teal, err2))
     function = teal.functions["c"]
     res["fn_blocks"] = [b.idx for b in function.blocks]
     res["ctx"] = {str(b.idx): block_ctx(function, b) for b in function.blocks}
